@@ -181,6 +181,19 @@ pub fn gen_case(seed: u64, run: u64, faults: bool, real_every: u64) -> Case {
             _ => argv = gen::base_sentence(&mut r, &opts, true),
         }
         argv.truncate(12);
+        if !argv.is_empty() && r.chance(1, 25) {
+            // one very long word: quoted back in a failure message of several KiB
+            let at = r.below(argv.len());
+            let n = *r.pick(&[1990usize, 2100, 5000, 70000][..]);
+            let fill = *r.pick(&[b'x', b'9', b'-'][..]);
+            // (not a short-flag cluster of that length: bpaf's work on those grows faster than
+            // linearly and is bounded separately, under C04)
+            if argv[at].first() == Some(&b'-') && argv[at].get(1) != Some(&b'-') {
+                argv[at] = b"--".to_vec();
+            }
+            let grown = argv[at].len() + n;
+            argv[at].resize(grown, fill);
+        }
         if r.chance(1, 12) {
             // an argument that repeats the program's own name (multicall binaries, `cargo-x x`)
             let base: Vec<u8> = match a0.iter().rposition(|b| *b == b'/') {
